@@ -37,6 +37,10 @@ BUILDS = {
     "dev-eu868-noc": _dev("region-eu868", "eu868"),
     "dev-us915-noc": _dev("region-us915", "us915"),
     "dev-serde": _dev("region-eu868,class-c,serde", "eu868"),
+    # the non-default `multicast` feature changes the signatures the MAC-level harnesses call:
+    # only the front-end harness files that are written for it are overlaid in this build
+    "dev-eu868-mc": dict(_dev("region-eu868,multicast", "eu868"),
+                         only_files=["async_common.rs", "async_mc_h.rs"]),
     "phy": dict(package="lora-phy", args=["--features", "lorawan-radio"], swap=True,
                 # cargo-kani drops `dep/feature` arguments: give the optional lorawan-device dependency
                 # its region features in the scratch copy's manifest instead (build config only)
@@ -182,6 +186,15 @@ def cleanup():
 
 class Inconclusive(Exception):
     pass
+
+
+def files_for_build(files, b, pkg_dirs):
+    """harness files overlaid in build `b`: those anchored in the package under verification,
+    restricted to the build's `only_files` list when it has one"""
+    fs = [f for f in files if f["anchor"].split("/")[0] in pkg_dirs]
+    if b.get("only_files"):
+        fs = [f for f in fs if os.path.basename(f["path"]) in b["only_files"]]
+    return fs
 
 
 def apply_overlay(scratch, files, swap_crypto, edits=()):
